@@ -220,6 +220,26 @@ done:
   ret void
 }
 
+declare void @lf(label, i32)
+
+define void @labels(i32 %x) personality i8* bitcast (i32 (...)* @__gxx_personality_v0 to i8*) {
+entry:
+  br label %entry2
+entry2:
+  invoke void @lf(label %other, i32 %x) to label %cont unwind label %lpad
+cont:
+  invoke void @vf() [ "blocks"(label %other, label %cont2) ] to label %cont2 unwind label %lpad
+cont2:
+  callbr void asm sideeffect "", "X"(i8* blockaddress(@labels, %t1)) [ "b"(label %cont2, label %entry2) ] to label %other [label %t1]
+t1:
+  ret void
+other:
+  ret void
+lpad:
+  %l = landingpad { i8*, i32 } cleanup
+  resume { i8*, i32 } %l
+}
+
 define void @nested_pad() personality i8* bitcast (i32 (...)* @__CxxFrameHandler3 to i8*) {
 entry:
   invoke void @vf() to label %done unwind label %outer
